@@ -294,28 +294,34 @@ def run_case(k, rng, tier, batch, res, problems, n_oracle):
         problems.append((f"{what}: {why}", {"what": what, **case, **(extra or {}), "data": data}))
 
     # ---------------- calculate_marginal_bias
+    # one statistic per call (a call whose every row is dropped because of an inf ends in pandas' "No objects to
+    # concatenate" ValueError, which is the same as a dropped row), plus the combined call wherever it returns
     for bt in ("percentage", "absolute"):
         out = call(marginal.calculate_marginal_bias, obs=[obs, tV], statistics=stats, metrics=mobjs, percentage_or_absolute=bt,
                    raw=[rawV, tV], bc=[bcV, tV])
         for key, cm in (("raw", rawV), ("bc", bcV)):
-            for st in stats:
-                name = "Mean" if st == "mean" else f"{st} qn"
-                real = out if out[0] == "raise" else ("ok", row(out[1], key, name))
-                if st == "mean":
-                    batch.add("calculate_marginal_bias", {**case, "bt": bt, "stat": st, "key": key}, f"mmean {bt}", [obs, cm], real, shape, scale=scale)
+            for st in stats + ["metric0", "metric1"]:
+                if isinstance(st, str) and st.startswith("metric"):
+                    mo, mtxt, ms = metrics[int(st[-1])]
+                    name, kw, op, stat_ref, tie, sc = mo.name, dict(statistics=[], metrics=[mo]), f"mmet {bt} {mtxt}", "metric", False, 365.0
+                elif st == "mean":
+                    ms, name, kw, op, stat_ref, tie, sc = None, "Mean", dict(statistics=["mean"], metrics=[]), f"mmean {bt}", "mean", False, scale
                 else:
-                    batch.add("calculate_marginal_bias", {**case, "bt": bt, "stat": st, "key": key}, f"mq {bt} {C.rat(st)}", [obs, cm], real, shape,
-                              tie_possible=True, scale=scale)
-                why = differs(real, ref_marginal(bt, st, obs, cm), scale)
+                    ms, name, kw, op, stat_ref, tie, sc = None, f"{st} qn", dict(statistics=[st], metrics=[]), f"mq {bt} {C.rat(st)}", st, True, scale
+                one = call(marginal.calculate_marginal_bias, obs=[obs, tV], percentage_or_absolute=bt, **kw, **{key: [cm, tV]})
+                if one[0] == "raise" and one[1] == "ValueError" and bt == "percentage":
+                    one = ("ok", None)
+                else:
+                    one = one if one[0] == "raise" else ("ok", row(one[1], key, name))
+                batch.add("calculate_marginal_bias", {**case, "bt": bt, "stat": str(st), "key": key}, op, [obs, cm], one, shape,
+                          dropped_on_inf=(bt == "percentage"), tie_possible=tie, scale=sc)
+                why = differs(one, ref_marginal(bt, stat_ref, obs, cm, ms), sc)
                 if why:
-                    problem("calculate_marginal_bias", f"{name} {bt} bias of '{key}': {why}", {"bt": bt, "stat": st, "key": key})
-            for (mo, mtxt, ms) in metrics:
-                real = out if out[0] == "raise" else ("ok", row(out[1], key, mo.name))
-                batch.add("calculate_marginal_bias", {**case, "bt": bt, "metric": mtxt, "key": key}, f"mmet {bt} {mtxt}", [obs, cm], real, shape,
-                          dropped_on_inf=(bt == "percentage"), scale=365.0)
-                why = differs(real, ref_marginal(bt, "metric", obs, cm, ms), 365.0)
-                if why:
-                    problem("calculate_marginal_bias", f"metric {mtxt} {bt} bias of '{key}': {why}", {"bt": bt, "metric": mtxt, "key": key})
+                    problem("calculate_marginal_bias", f"{name} {bt} bias of '{key}': {why}", {"bt": bt, "stat": str(st), "key": key})
+                if out[0] == "ok" and one[0] == "ok" and one[1] is not None:
+                    r2 = row(out[1], key, name)
+                    if r2 is None or not np.array_equal(r2, one[1], equal_nan=True):
+                        problem("calculate_marginal_bias", f"{name} ('{key}') differs between the combined and the single-statistic call", {"bt": bt})
 
     # ---------------- calculate_bias_days_metrics
     out = call(marginal.calculate_bias_days_metrics, obs_data=[obs, tV], metrics=mobjs, raw=[rawV, tV], fut=[rawF, tF])
